@@ -62,6 +62,7 @@ var kindTable = map[string]attr{
 	"SentBad":    {"sentbad", false, false, "none"},
 	"HdrRun":     {"run", false, false, "none"},
 	"HdrOther":   {"other", false, false, "none"},
+	"HdrOtherP":  {"other", true, false, "none"},
 	"Blank":      {"blank", false, false, "none"},
 	"Created":    {"created", false, false, "none"},
 	"Elided":     {"elided", false, false, "none"},
@@ -359,8 +360,10 @@ var (
 	textBlock = []string{"panic: runtime error: index out of range", "...additional frames elided...", "exit status 2",
 		"runtime stack:", "rax    0x0", " goroutine 1 [running]:", " sentinel 12", " created by x", " ", "\t",
 		"\t/home/user/inlined.go:85", "\t/tmp/secret token=abc/y.go:85 +0x1d", "\t/x/pc=1/y.go:3", ".(", "x.(", "runtime.(", "x", ".", ")"}
-	hdrRun   = []string{"goroutine 1 [running]:", "goroutine 18 gp=0xc000102700 m=3 mp=0xc000080008 [running]:", "goroutine 4242 [running]:"}
-	hdrOther = []string{"goroutine 2 [chan receive]:", "goroutine 3 gp=0xc000007880 m=nil [GC worker (idle), 2 minutes]:",
+	hdrRun    = []string{"goroutine 1 [running]:", "goroutine 18 gp=0xc000102700 m=3 mp=0xc000080008 [running]:", "goroutine 4242 [running]:"}
+	hdrOtherP = []string{"goroutine 3 gp=0xc000007880 m=nil [GC worker (idle), 2 minutes]:", "goroutine 18 [select (no cases)]:",
+		"goroutine 7 gp=0xc000102380 m=nil [GC assist wait (idle)]:", "goroutine 2 gp=0xc000006c40 m=nil [force gc (idle)]:"}
+	hdrOther = []string{"goroutine 2 [chan receive]:", "goroutine 3 gp=0xc000007880 m=nil [GC worker, 2 minutes]:",
 		"goroutine 17 [select, locked to thread]:", "goroutine 0 gp=0x56ec60 m=0 mp=0x56f7a0 [idle]:", "goroutine 5 [runnable]:", "goroutine 9 [syscall]:"}
 	created = []string{"created by main.main in goroutine 1", "created by net/http.(*Server).Serve in goroutine 33", "created by x"}
 	// symbol lines that BEGIN with "(": the symbol is empty
@@ -476,6 +479,8 @@ func concretize(kinds []string, variant int, rng *rand.Rand, vt *valueTable, pla
 			ln = pick(hdrRun)
 		case "HdrOther":
 			ln = pick(hdrOther)
+		case "HdrOtherP":
+			ln = pick(hdrOtherP)
 		case "Blank":
 			ln = ""
 		case "Created":
@@ -575,7 +580,7 @@ func detail(o outcome) rt.M {
 func randomKinds(rng *rand.Rand) []string {
 	var ks []string
 	add := func(k ...string) { ks = append(ks, k...) }
-	all := []string{"SentOk1", "SentOk2", "SentZero", "SentBad", "HdrRun", "HdrOther", "Blank", "Created", "Elided", "SymSig", "SymPlain", "SymParen1",
+	all := []string{"SentOk1", "SentOk2", "SentZero", "SentBad", "HdrRun", "HdrOther", "HdrOtherP", "Blank", "Created", "Elided", "SymSig", "SymPlain", "SymParen1",
 		"NoParen", "LocNoPc", "LocPc", "LocParenPc", "LocPathPc", "LocHuge", "LocBad"}
 	pre := []string{"NoParen", "NoParen", "Blank", "HdrOther", "SymPlain", "LocPc", "LocNoPc", "SymSig", "LocPathPc", "Created", "LocBad", "LocHuge"}
 	entries := func(n int) {
@@ -620,16 +625,31 @@ func randomKinds(rng *rand.Rand) []string {
 			add("Elided")
 			entries(rng.Intn(4))
 		}
+		odd := rng.Intn(5) == 0
+		if odd { // odd line pairing: an unpaired line at the end of the first goroutine
+			add([]string{"SymPlain", "SymParen1", "LocParenPc", "SymSig"}[rng.Intn(4)])
+		}
 		switch rng.Intn(4) {
 		case 0:
 			add("Created", "LocPc", "Blank")
 		case 1:
+			if odd {
+				add("Blank")
+			}
 		default:
 			add("Blank")
 		}
+		if odd { // other goroutines, their own lines shifted by one as well
+			for g := 1 + rng.Intn(2); g > 0; g-- {
+				add([]string{"HdrOtherP", "HdrOtherP", "HdrOther", "HdrRun"}[rng.Intn(4)])
+				add("LocPc")
+				entries(rng.Intn(3))
+				add("Blank")
+			}
+		}
 	}
 	for g := rng.Intn(3); g > 0; g-- {
-		add([]string{"HdrOther", "HdrRun"}[rng.Intn(2)])
+		add([]string{"HdrOther", "HdrOtherP", "HdrRun"}[rng.Intn(3)])
 		entries(rng.Intn(4))
 		add("Blank")
 	}
@@ -1039,7 +1059,33 @@ func mutateLines(text string, rng *rand.Rand) string {
 	n := 1 + rng.Intn(3)
 	for ; n > 0 && len(lines) > 1; n-- {
 		p := rng.Intn(len(lines))
-		switch rng.Intn(10) {
+		switch rng.Intn(11) {
+		case 10: // unpair the first running goroutine (drop one of its lines) and shift
+			// the lines of the next goroutine whose header has a "(" by one as well
+			h := -1
+			for i, l := range lines {
+				if strings.HasPrefix(l, "goroutine ") && strings.Contains(l, " [running]:") {
+					h = i
+					break
+				}
+			}
+			if h < 0 {
+				break
+			}
+			e := h + 1
+			for e < len(lines) && lines[e] != "" && !strings.HasPrefix(lines[e], "created by ") {
+				e++
+			}
+			if e-h > 2 {
+				d := h + 1 + rng.Intn(e-h-1)
+				lines = append(lines[:d], lines[d+1:]...)
+				for i := e; i+1 < len(lines); i++ {
+					if strings.HasPrefix(lines[i], "goroutine ") && strings.Contains(lines[i], "(") {
+						lines = append(lines[:i+1], lines[i+2:]...)
+						break
+					}
+				}
+			}
 		case 9: // a symbol line loses its symbol: it now begins with "("
 			if k := strings.Index(lines[p], "("); k > 0 && !strings.HasPrefix(lines[p], "\t") && !strings.HasPrefix(lines[p], "goroutine") {
 				lines[p] = lines[p][k:]
